@@ -57,7 +57,7 @@ def meta(tier):
                 'that shows the mute state, references to every label/constant a marker defined, a zone probe); '
                 'non-trivial = history with >=1 conditional directive whose reference selection both excludes and includes '
                 'at least one marker; plus the comparison product: every pair of 17 operand spellings (incl. negative values and blanks between tokens) (decimal, hex, binary, expressions, '
-                'symbols) x 6 operators, and every operand as a bare condition; states = distinct canonical reference states (symbols, zones, cursors, mute, labels)',
+                'symbols) x 6 operators, and every operand as a bare condition; plus every condition (8 x 8 numeric spellings and symbol-vs-quoted-text comparisons, 6 operators) stated by #if, by #elif after #if 0, and by a second #elif: same selection under all three, and for == / != between texts the selection itself; states = distinct canonical reference states (symbols, zones, cursors, mute, labels)',
         'bounds': {'alphabet': [R.render_stmt(s) for s in SIGMA], 'core_alphabet': [R.render_stmt(s) for s in SIGMA_CORE_Q],
                    'depth_full_alphabet': 4 if q else 5, 'depth_core_alphabet': 5 if q else 6,
                    'variants_per_history': 'V0 markers+symbol probes; V1 +label/constant references; V2 +zone probe'},
@@ -70,7 +70,7 @@ def meta(tier):
             '#mute is a counter (n mutes need n unmutes), as the repository\'s own test_muting pins',
         ],
         'floors': {'evaluations': 1000, 'nontrivial': 100, 'statuses': ['OK', 'REJECT'],
-                   'clauses': ['selected', 'rejected-unmatched', 'comparison', 'selected-under-every-reading']},
+                   'clauses': ['selected', 'rejected-unmatched', 'comparison', 'selected-under-every-reading', 'same-under-if-and-elif']},
         'nshards': len(SIGMA) * len(SIGMA),
     }
 
@@ -192,6 +192,7 @@ def shard(acc, tier, idx, n):
     core_depth = 5 if q else 6
     # shard = subtree under the first two symbols of the full alphabet; depth 0 and 1 belong to shard 0
     comparisons(acc, idx, n)
+    elif_like_if(acc, idx, n)
     # included files with stray / balanced directives of their own, at every position of every short history
     ctr = 0
     for depth in range(1, (3 if q else 4) + 1):
@@ -275,7 +276,60 @@ def comparisons(acc, idx, n):
         acc.judge(clause='comparison', nontrivial_key=('bare', ta))
 
 
+def elif_like_if(acc, idx, n):
+    """A condition holds or not whichever directive states it: `#if 0 / #elif C` selects exactly when `#if C` does, and so does a
+    second #elif after an #elif that did not hold.  C ranges over the numeric spellings and over comparisons with quoted texts; for
+    == and != between texts the outcome is also judged (equal texts are equal)."""
+    ctr = 0
+    head = '#define SA 1\n#define SN 12\n#define SM 0-3\n#define ST gamma\n'
+    conds = []
+    for (ta, va), (tb, vb) in itertools.product(CMP_OPERANDS[:8], repeat=2):
+        for op, fn in CMP_OPS.items():
+            conds.append((f'{ta} {op} {tb}', fn(va, vb)))
+    for lhs, lval in (('ST', 'gamma'), ('SA', '1')):
+        for q in ('"', "'"):
+            for text in ('gamma', 'beta', 'gamm', 'gammas', '1'):
+                for op in CMP_OPS:
+                    holds = {'==': lval == text, '!=': lval != text}.get(op)        # None: not judged, only compared between the forms
+                    conds.append((f'{lhs} {op} {q}{text}{q}', holds))
+    forms = {'if': '#if {c}\n    .byte 34\n#else\n    .byte 68\n#endif\n',
+             'elif': '#if 0\n    .byte 17\n#elif {c}\n    .byte 34\n#else\n    .byte 68\n#endif\n',
+             'second-elif': '#if SA == 2\n    .byte 17\n#elif 0\n    .byte 18\n#elif {c}\n    .byte 34\n#else\n    .byte 68\n#endif\n'}
+    for cond, holds in conds:
+        ctr += 1
+        if ctr % n != idx:
+            continue
+        cases = [Case(ISA, head + f.format(c=cond)) for f in forms.values()]
+        outs = [acc.run(c) for c in cases]
+        acc.transition(len(cases))
+        spec = {'type': 'elif-like-if', 'condition': cond, 'holds': holds}
+        msg = judge_forms(spec, outs)
+        if msg:
+            acc.violation(cases, spec, f'condition {cond}: {msg}', outs)
+        acc.judge(clause='same-under-if-and-elif', nontrivial_key=('forms', cond))
+
+
+def judge_forms(spec, outs):
+    names = ['#if', '#if 0 / #elif', 'second #elif']
+    for nm, o in zip(names, outs):
+        if o.status == 'HANG':
+            return f'{nm} form did not terminate'
+    keys = [(o.status, o.image) for o in outs]
+    if spec.get('holds') is not None:
+        want = ('OK', bytes([34 if spec['holds'] else 68]))
+        for nm, k in zip(names, keys):
+            if k != want:
+                return f'{nm} form: expected image {want[1].hex()}, got {k[0]} {None if k[1] is None else k[1].hex()}'
+    for nm, k in zip(names[1:], keys[1:]):
+        if k != keys[0]:
+            return (f'stated by #if the outcome is {keys[0][0]} {None if keys[0][1] is None else keys[0][1].hex()}, stated by {nm} it is '
+                    f'{k[0]} {None if k[1] is None else k[1].hex()}')
+    return None
+
+
 def judge(spec, outcomes):
+    if spec.get('type') == 'elif-like-if':
+        return judge_forms(spec, outcomes)
     if 'alternatives' in spec:
         msgs = [judge_expect(a, outcomes) for a in spec['alternatives']]
         if any(m is None for m in msgs):
